@@ -190,3 +190,95 @@ Lemma existsb_insert_keep {A} (f : A -> bool) l i y x : l !! i = Some y -> f y =
 Proof. intros H Hy Ht. pose proof (existsb_insert f l i y x H) as He. rewrite Hy, Ht in He. by rewrite orb_false_r in He. Qed.
 Lemma is_live_insert_eq c k x : k < length c -> is_live (<[k:=x]> c) k = match x with WkLive => true | _ => false end.
 Proof. intros H. unfold is_live. by rewrite list_lookup_insert. Qed.
+Ltac babs := repeat (match goal with
+   | |- context [existsb ?f ?l] => let b := fresh "b" in set (b := existsb f l) in *; clearbody b
+   | |- context [is_live ?c ?k] => let b := fresh "b" in set (b := is_live c k) in *; clearbody b
+   end).
+Ltac bfin := repeat (cbn; try done; match goal with b : bool |- _ => lazymatch goal with |- context [b] => destruct b end end).
+Lemma step_A s a s' : inv_ids s -> inv_A s -> step s a = Some s' -> inv_A s'.
+Proof.
+  unfold inv_ids, inv_A, wake_pending, job_queued, running_or_armed, waker_armed. intros [HD1 HD2] HI H. step_cases s H.
+  all: intros Hp; try discriminate Hp; try specialize (HI Hp).
+  all: try exact HI.
+  all: try (unfold id_ok in HD2; apply bool_decide_eq_true in HD2; rewrite is_live_insert_eq by done; rewrite ?orb_true_r; done).
+  all: rewrite ?existsb_app; cbn [existsb].
+  all: try (revert HI; repeat (match goal with |- context [match ?x with _ => _ end] => is_var x; destruct x end); babs; bfin; fail).
+  all: try (match goal with Ew : _ !! _ = Some _ |- context [<[_:=?w']> _] => rewrite (existsb_insert_true _ _ _ _ w' Ew eq_refl) end; done).
+  all: try (rewrite !orb_true_r; done).
+  all: try (match goal with Ew : ?ws !! ?i = Some ?w |- context [existsb (potent ?c) (<[?i:=?w']> ?ws)] =>
+     pose proof (existsb_insert (potent c) ws i w w' Ew) as He; cbn in He; unfold is_live in He;
+     try (match goal with E : c !! _ = _ |- _ => rewrite E in He end) end;
+     revert HI He; match goal with |- context [_ || _ || ?R = true] => generalize R; intro end; babs; bfin; fail).
+  all: subst; cbn [potent].
+  all: try (revert HI; repeat (match goal with |- context [match ?x with _ => _ end] => is_var x; destruct x end); babs; bfin; fail).
+Qed.
+
+(* ---------- I8: poll_fn is only cleared at end of stream, or taken when the object is gone ---------- *)
+Definition is_take (w : wpc) : bool := match w with WTake => true | _ => false end.
+Definition inv_B (s : state) : Prop :=
+  (existsb is_take s.(wakes) = true -> s.(strong) = 0) /\
+  (s.(pollfn) = false -> s.(strong) = 0 \/ (s.(ended) = true /\ s.(ready) = [])) /\
+  (match s.(running) with Some (OPoll _, JClear) => s.(ended) = true /\ s.(ready) = [] | _ => True end).
+Lemma existsb_insert_mono {A} (f : A -> bool) l i y x : l !! i = Some y -> f x = false ->
+  existsb f (<[i:=x]> l) = true -> existsb f l = true.
+Proof. intros H Hx Ht. pose proof (existsb_insert f l i y x H) as He. rewrite Hx, Ht in He. cbn in He. by rewrite orb_false_r in He. Qed.
+Lemma existsb_lookup {A} (f : A -> bool) l i y : l !! i = Some y -> f y = true -> existsb f l = true.
+Proof. revert i; induction l as [|z l IH]; intros [|i]; simpl; try done. - intros [= ->] ->. done. - intros H1 H2. rewrite (IH _ H1 H2). apply orb_true_r. Qed.
+Lemma step_B s a s' : inv_B s -> step s a = Some s' -> inv_B s'.
+Proof.
+  unfold inv_B. intros (HB1 & HB2 & HB3) H. step_cases s H.
+  all: rewrite ?existsb_app; cbn [existsb is_take]; rewrite ?orb_false_r.
+  all: try (split; [exact HB1|split; [exact HB2|first [exact HB3|done]]]).
+  all: try (match goal with Ew : ?ws !! ?i = Some ?w |- context [existsb is_take (<[?i:=?w']> ?ws)] =>
+              pose proof (existsb_insert_mono is_take ws i w w' Ew) as Hm; cbn in Hm end).
+  all: try (timeout 10 naive_solver lia).
+  all: try (destruct o; timeout 10 naive_solver).
+  all: try (match goal with Ew : _ !! _ = Some WTake |- _ => pose proof (existsb_lookup is_take _ _ _ Ew eq_refl) end; timeout 10 naive_solver).
+  all: try (destruct running as [[[?| |] []]|]; timeout 10 naive_solver).
+Qed.
+
+(* ---------- I9: after a stream event that found the object gone the input holds no waker any more ---------- *)
+Definition inv_G (s : state) : Prop := s.(evt_gone) = true -> s.(freed) = true /\ s.(reg) = None.
+Lemma step_G s a s' : inv_free s -> inv_G s -> step s a = Some s' -> inv_G s'.
+Proof.
+  unfold inv_free, inv_G. intros HF HI H. step_cases s H.
+  all: try exact HI.
+  all: try (timeout 10 naive_solver).
+  all: destruct strong; timeout 10 naive_solver.
+Qed.
+
+(* ---------- all invariants hold in every reachable state ---------- *)
+Record Inv (items : list item) (s : state) : Prop := {
+  i_items : inv_items items s; i_excl : inv_excl s; i_strong : inv_strong s; i_free : inv_free s;
+  i_rel : inv_rel s; i_ids : inv_ids s; i_A : inv_A s; i_B : inv_B s; i_G : inv_G s }.
+
+Lemma Inv_init items : Inv items (init items).
+Proof.
+  split.
+  - unfold inv_items, inhand; cbn. done.
+  - done.
+  - done.
+  - unfold inv_free; cbn. done.
+  - done.
+  - done.
+  - intros _. done.
+  - unfold inv_B; cbn. split; [done|]. split; [done|done].
+  - intros H. discriminate H.
+Qed.
+
+Lemma Inv_step items s a s' : Inv items s -> step s a = Some s' -> Inv items s'.
+Proof.
+  intros [] H. split.
+  - by eapply step_items.
+  - by eapply step_excl.
+  - by eapply step_strong.
+  - by eapply step_free.
+  - by eapply step_rel.
+  - by eapply step_ids.
+  - by eapply step_A.
+  - by eapply step_B.
+  - by eapply step_G.
+Qed.
+
+Lemma Inv_reach items tr s : run (init items) tr = Some s -> Inv items s.
+Proof. apply run_ind; [apply Inv_init|apply Inv_step]. Qed.
